@@ -277,6 +277,9 @@ type Duration int64
 func (d Duration) String() string { return time.Duration(d).String() }
 
 type MyString string
+
+// HumanDuration is a string-kinded cast type whose name merely ends in "Duration"
+type HumanDuration string
 type MyInt int32
 type BoolCustom bool
 type StrCustom string
